@@ -230,6 +230,8 @@ def n9_step_by(text, fired):
     open_i = mm.end() - 1
     close_i = match_close(m, open_i)
     body = text[open_i + 1:close_i]
+    if not mask(body).rstrip().endswith((';', '}')):
+        body = body.rstrip() + ';\n'
     indent = re.match(r'[ \t]*', text[text.rfind('\n', 0, mm.start()) + 1:]).group(0)
     new = ('let mut %s: usize = %s;\n%swhile %s < %s {%s%s    %s = vx_step_by_next(%s, %s);\n%s}'
            % (x, a, indent, x, b, body.rstrip() + '\n', indent, x, x, k, indent))
@@ -485,6 +487,7 @@ class Gen:
             decl2 = decl2[:ob + 1] + body + decl2[cb:]
         decl2 = normalise_code(decl2, fired)
         if 'nodebug' in opts:
+            lead2 = re.sub(r'Debug\s*,\s*', '', lead2)
             lead2 = re.sub(r',?\s*Debug', '', lead2)
             lead2 = re.sub(r'#\[derive\(\s*,?\s*\)\]\n', '', lead2)
         for k, v in fired.items():
